@@ -115,8 +115,23 @@ CID count per multihash:%s
 	)
 }
 
+// endTrackingReaderAt remembers how far into the underlying reader has been read.
+type endTrackingReaderAt struct {
+	r   io.ReaderAt
+	end int64
+}
+
+func (t *endTrackingReaderAt) ReadAt(p []byte, off int64) (int, error) {
+	n, err := t.r.ReadAt(p, off)
+	if e := off + int64(n); e > t.end {
+		t.end = e
+	}
+	return n, err
+}
+
 func InspectCar(inStream *os.File, verifyHashes bool) (*Report, error) {
-	rd, err := carv2.NewReader(inStream, carv2.ZeroLengthSectionAsEOF(true))
+	tracked := &endTrackingReaderAt{r: inStream}
+	rd, err := carv2.NewReader(tracked, carv2.ZeroLengthSectionAsEOF(true))
 	if err != nil {
 		return nil, err
 	}
@@ -126,7 +141,9 @@ func InspectCar(inStream *os.File, verifyHashes bool) (*Report, error) {
 	}
 
 	if stats.Version == 1 && verifyHashes { // check that we've read all the data
-		got, err := inStream.Read(make([]byte, 1)) // force EOF
+		// The reader works through ReadAt, which does not move the file position: probe right
+		// after the last byte the inspection has read.
+		got, err := inStream.ReadAt(make([]byte, 1), tracked.end) // force EOF
 		if err != nil && err != io.EOF {
 			return nil, err
 		} else if got > 0 {
